@@ -120,7 +120,9 @@ class Selector:
             if norm(d) not in ("staticmethod", "classmethod"):
                 return False
         a = node.args
-        if a.vararg or a.kwarg:
+        if a.vararg:
+            return False
+        if a.kwarg and any(isinstance(n, ast.Name) and n.id == a.kwarg.arg and isinstance(n.ctx, (ast.Store, ast.Del)) for n in ast.walk(node)):
             return False
         if not all(_const_default(d) for d in list(a.defaults) + [d for d in a.kw_defaults if d is not None]):
             return False
@@ -550,10 +552,19 @@ class Inliner:
             return None
         for nm, arg in zip(pparams, call.args):
             bound[nm] = arg
+        extra: List[ast.keyword] = []
         for kw in call.keywords:
-            if kw.arg not in params or kw.arg in bound:
+            if kw.arg in bound:
                 return None
+            if kw.arg not in params:
+                if a.kwarg is None:
+                    return None
+                extra.append(kw)
+                continue
             bound[kw.arg] = kw.value
+        if a.kwarg is not None:
+            # **kwargs of the helper: the literal dictionary of the surplus keywords of this call
+            mapping[a.kwarg.arg] = ast.copy_location(ast.Dict(keys=[ast.Constant(value=k.arg) for k in extra], values=[k.value for k in extra]), at)
         stored = {n.id for n in own_nodes(t.node) if isinstance(n, ast.Name) and isinstance(n.ctx, (ast.Store, ast.Del))}
         for nm in params:
             val = bound.get(nm, defaults.get(nm))
@@ -679,6 +690,14 @@ class Inliner:
             rep = self.inline_call(scope, st.value.value, "yieldfrom", None, st, depth)
             if rep is not None:
                 return rep
+            got = self.sel.target_of(scope, st.value.value)
+            if got is not None and got[2] == "fn":
+                # `yield from helper(..)` where the helper *returns* an iterable: bind it first (fuse_generators takes over)
+                tmp = self._fresh("it")
+                rep = self.inline_call(scope, st.value.value, "assign", ast.Name(id=tmp, ctx=ast.Store()), st, depth)
+                if rep is not None:
+                    st.value.value = ast.copy_location(ast.Name(id=tmp, ctx=ast.Load()), st)
+                    return rep + [st]
         if isinstance(st, ast.Return) and isinstance(st.value, ast.Call):
             rep = self.inline_call(scope, st.value, "return", None, st, depth)
             if rep is not None:
@@ -974,6 +993,27 @@ def fuse_generators(fn: ast.AST) -> int:
         done = False
         for blk in _blocks(fn):
             for i, st in enumerate(blk):
+                if isinstance(st, ast.Expr) and isinstance(st.value, ast.YieldFrom):
+                    # `yield from (e for x in xs if c)` -> `for x in xs: if c: yield e`
+                    v = st.value.value
+                    comp, src = None, None
+                    if isinstance(v, (ast.GeneratorExp, ast.ListComp)):
+                        comp = v
+                    elif isinstance(v, ast.Name) and v.id in gens and gens[v.id][0] is blk:
+                        src = gens[v.id]
+                        comp = src[2]
+                    if comp is not None and len(comp.generators) == 1 and not comp.generators[0].is_async:
+                        g = comp.generators[0]
+                        inner: List[ast.stmt] = [ast.copy_location(ast.Expr(value=ast.Yield(value=comp.elt)), st)]
+                        for cond in reversed(g.ifs):
+                            inner = [ast.copy_location(ast.If(test=cond, body=inner, orelse=[]), st)]
+                        blk[i] = ast.copy_location(ast.For(target=g.target, iter=g.iter, body=inner, orelse=[]), st)
+                        if src is not None:
+                            blk.remove(src[1])
+                        count += 1
+                        done = True
+                        break
+                    continue
                 if not isinstance(st, ast.For) or st.orelse:
                     continue
                 comp = None
@@ -1133,6 +1173,10 @@ def push_continuation(fn: ast.AST) -> int:
                     all_stores = sum(1 for x in ast.walk(fn) if isinstance(x, ast.Name) and x.id == nm and isinstance(x.ctx, ast.Store))
                     if total_loads != 1 or len(sites) < 2 or len(sites) != all_stores:
                         continue
+                    # only worth it (and only done) when the values are tuple displays that the moved statement takes apart:
+                    # for plain values the data flow says the same and nothing gets duplicated
+                    if not all(isinstance(s_.value, ast.Tuple) for _, s_ in sites):
+                        continue
                     # what the moved assignment writes may not be read inside the loop after the sites; keep it simple: the
                     # sites are each directly followed by `break`
                     if not all(b2.index(s_) + 1 < len(b2) and isinstance(b2[b2.index(s_) + 1], ast.Break) for b2, s_ in sites):
@@ -1220,6 +1264,34 @@ def fold_tuples(fn: ast.AST) -> int:
             blk[i - 1:i] = rep or [ast.copy_location(ast.Pass(), st)]
             i += len(rep or [1]) - 1
             count += 1
+    return count
+
+
+# ------------------------------------------------------------------------------------------------ literal indirections
+def fold_literal_indirections(fn: ast.AST) -> int:
+    """``getattr(x, 'name')`` -> ``x.name``;  ``f(a, **{'k': v})`` -> ``f(a, k=v)``"""
+    count = 0
+
+    class G(ast.NodeTransformer):
+        def visit_Call(self, c: ast.Call):
+            nonlocal count
+            self.generic_visit(c)
+            new_kw = []
+            for k in c.keywords:
+                if k.arg is None and isinstance(k.value, ast.Dict) and all(
+                        isinstance(x, ast.Constant) and isinstance(x.value, str) and x.value.isidentifier() for x in k.value.keys):
+                    new_kw += [ast.keyword(arg=x.value, value=v) for x, v in zip(k.value.keys, k.value.values)]
+                    count += 1
+                else:
+                    new_kw.append(k)
+            c.keywords = new_kw
+            if isinstance(c.func, ast.Name) and c.func.id == "getattr" and len(c.args) == 2 and not c.keywords \
+                    and isinstance(c.args[1], ast.Constant) and isinstance(c.args[1].value, str) and c.args[1].value.isidentifier():
+                count += 1
+                return ast.copy_location(ast.Attribute(value=c.args[0], attr=c.args[1].value, ctx=ast.Load()), c)
+            return c
+
+    G().visit(fn)
     return count
 
 
@@ -1482,6 +1554,7 @@ def normalise(p: Program, vocab: Optional[Set[str]] = None) -> Tuple[Dict[str, a
         if len(inl.log) > before or unrolled or fused:
             fold_class_constants(p, f, tgt)
             fold_constant_tests(tgt)
+            fold_literal_indirections(tgt)
             forward_substitute(tgt)
             if push_continuation(tgt):
                 forward_substitute(tgt)
